@@ -421,6 +421,13 @@ def check(run, views, tier):
         run.cfg = cfg
         F = crates["ipp"]
         check_operation_types(run, F)
+        from .c19 import check_attribute_ctor
+        check_attribute_ctor(run, F, rule="R-OPWIRE")
+        from . import c09 as _c09
+        _saved = (run.explanation, list(run.trusted), list(run.not_decided))
+        _c09.check(run, {cfg: {"ipp": F}}, tier, with_ops=False)
+        run.explanation, run.trusted, run.not_decided = _saved
+        run.cfg = cfg
         # attribute name constants
         for cpath, val in T["names"].items():
             run.ob("R-OPWIRE", "%s = '%s'" % (cpath.split("::")[-1], val), F.const_value(cpath) == val, "evaluates to %r" % F.const_value(cpath),
